@@ -249,6 +249,11 @@ func oracleC06(c *oracleCtx) {
 			"if (a) {\n  x = `one\t\n\t\ntwo`;\n}\n",
 			"let q = \"a\t\\\nb\";\n",
 			"f(`\t\n`, `x\r\ny`);\n",
+			// runs of blank lines in front of comments (the same tree is compiled under every option set)
+			"a = 1;\n\n\n// c\nb = 2;\n",
+			"function f() {\n  a();\n\n\n\n  // one\n  // two\n\n\n  b();\n\n\n  // three\n}\n",
+			"// head\n\n\n// second\nx = 1;\n\n\n\n// third\n\n// fourth\ny = 2;\n",
+			"s = `a\n\n\nb`;\n\n\nt = `\n\n\n\n`;\n",
 		} {
 			c.count(src)
 			c06Check(c, src, []string{"09", "2020", "20", "-"}, true)
